@@ -1116,6 +1116,26 @@ fn oracle_c18(plan: &ResolvePlan, obs: &Observations) -> RunResult {
                 }
                 found
             };
+            // measured, not judged (DESIGN.md 9.6, open question): is a preferred-family
+            // address held for ANOTHER name server of a zone this host serves?
+            if !(in_cache || in_local || in_hand) {
+                let sibling_held = plan.universe.zones.iter().filter(|z| z.ns.iter().any(|h| universe::names_equal(h, host))).any(|z| {
+                    z.ns.iter().filter(|h| !universe::names_equal(h, host)).any(|h2| {
+                        obs.trace_cache.get(i).is_some_and(|snap| {
+                            snap.iter().any(|c| {
+                                c.remaining_ns >= SEC
+                                    && universe::names_equal(&c.rr.name.to_dotted_string(), h2)
+                                    && crate::util::show_data(&c.rr.rtype_with_data).starts_with(&format!("{pref_type} "))
+                            })
+                        }) || local.iter().any(|z| {
+                            z.records.iter().any(|r| !r.wild && universe::names_equal(&r.owner, h2) && r.rtype() == pref_type)
+                        })
+                    })
+                });
+                if sibling_held {
+                    bump(&mut res.stats, "probe.other_family_contacted_while_preferred_held_for_a_sibling_server");
+                }
+            }
             if in_cache || in_local || in_hand {
                 res.violations.push(
                     Violation::new("c18.non_preferred_family_despite_held_address")
